@@ -274,6 +274,13 @@ type c18env struct {
 	viol atomic.Int64
 }
 
+// guard turns a panic of the code under test inside f into a finding (decoders/serializers must never panic).
+func (e *c18env) guard(key string, f func()) {
+	if p := mc.Safely(f); p != nil {
+		e.bad("panic:"+key, fmt.Sprint(p))
+	}
+}
+
 func (e *c18env) bad(key string, detail any) {
 	e.viol.Add(1)
 	e.r.Violation(key, detail)
@@ -636,45 +643,47 @@ func (e *c18env) encHosts() int64 {
 	var cnt int64
 	for _, d := range hosts {
 		for _, s := range hosts {
-			h := c18BaseHdr(0, c18MkOneHop(2))
-			sl := c18ToSlayers(h, false)
-			if err := sl.SetDstAddr(d); err != nil {
-				e.bad("host-pack", fmt.Sprintf("%v: %v", d, err))
-				continue
-			}
-			if err := sl.SetSrcAddr(s); err != nil {
-				e.bad("host-pack", fmt.Sprintf("%v: %v", s, err))
-				continue
-			}
-			buf := gopacket.NewSerializeBuffer()
-			if err := sl.SerializeTo(buf, gopacket.SerializeOptions{FixLengths: true}); err != nil {
-				e.bad("host-serialize", err.Error())
-				continue
-			}
-			var back slayers.SCION
-			if err := back.DecodeFromBytes(buf.Bytes(), &c18fb{}); err != nil {
-				e.bad("host-decode", err.Error())
-				continue
-			}
-			d2, err1 := back.DstAddr()
-			s2, err2 := back.SrcAddr()
-			if err1 != nil || err2 != nil || d2 != d || s2 != s {
-				e.bad("roundtrip-field:HostAddr", fmt.Sprintf("dst %v->%v (%v) src %v->%v (%v)", d, d2, err1, s, s2, err2))
-			}
-			// documented type/length codes: IPv4 = 0/0, IPv6 = 0/3, SVC = 1/0
-			wantT := func(x addr.Host) slayers.AddrType {
-				switch {
-				case x.Type() == addr.HostTypeSVC:
-					return 0b0100
-				case x.IP().Is4():
-					return 0b0000
-				}
-				return 0b0011
-			}
-			if back.DstAddrType != wantT(d) || back.SrcAddrType != wantT(s) {
-				e.bad("host-addrtype", fmt.Sprintf("%v/%v: %v/%v", d, s, back.DstAddrType, back.SrcAddrType))
-			}
 			cnt++
+			e.guard("hosts", func() {
+				h := c18BaseHdr(0, c18MkOneHop(2))
+				sl := c18ToSlayers(h, false)
+				if err := sl.SetDstAddr(d); err != nil {
+					e.bad("host-pack", fmt.Sprintf("%v: %v", d, err))
+					return
+				}
+				if err := sl.SetSrcAddr(s); err != nil {
+					e.bad("host-pack", fmt.Sprintf("%v: %v", s, err))
+					return
+				}
+				buf := gopacket.NewSerializeBuffer()
+				if err := sl.SerializeTo(buf, gopacket.SerializeOptions{FixLengths: true}); err != nil {
+					e.bad("host-serialize", err.Error())
+					return
+				}
+				var back slayers.SCION
+				if err := back.DecodeFromBytes(buf.Bytes(), &c18fb{}); err != nil {
+					e.bad("host-decode", err.Error())
+					return
+				}
+				d2, err1 := back.DstAddr()
+				s2, err2 := back.SrcAddr()
+				if err1 != nil || err2 != nil || d2 != d || s2 != s {
+					e.bad("roundtrip-field:HostAddr", fmt.Sprintf("dst %v->%v (%v) src %v->%v (%v)", d, d2, err1, s, s2, err2))
+				}
+				// documented type/length codes: IPv4 = 0/0, IPv6 = 0/3, SVC = 1/0
+				wantT := func(x addr.Host) slayers.AddrType {
+					switch {
+					case x.Type() == addr.HostTypeSVC:
+						return 0b0100
+					case x.IP().Is4():
+						return 0b0000
+					}
+					return 0b0011
+				}
+				if back.DstAddrType != wantT(d) || back.SrcAddrType != wantT(s) {
+					e.bad("host-addrtype", fmt.Sprintf("%v/%v: %v/%v", d, s, back.DstAddrType, back.SrcAddrType))
+				}
+			})
 		}
 	}
 	// v4-mapped IPv6 is documented to be sent as IPv4
@@ -917,9 +926,11 @@ func (e *c18env) extCase(e2e bool, next uint8, opts []wsOpt, fix bool) (outcome 
 	}
 	// what was decoded re-serializes to the same bytes
 	buf2 := gopacket.NewSerializeBuffer()
-	if err := d.SerializeTo(buf2, gopacket.SerializeOptions{}); err != nil || !bytes.Equal(buf2.Bytes(), got) {
-		e.bad("ext-reserialize:"+kind, fmt.Sprintf("%v %x vs %x", err, buf2.Bytes(), got))
-	}
+	e.guard("ext-reserialize:"+kind, func() {
+		if err := d.SerializeTo(buf2, gopacket.SerializeOptions{}); err != nil || !bytes.Equal(buf2.Bytes(), got) {
+			e.bad("ext-reserialize:"+kind, fmt.Sprintf("%v %x vs %x", err, buf2.Bytes(), got))
+		}
+	})
 	return "roundtrip-ok"
 }
 
@@ -973,7 +984,7 @@ func (e *c18env) encExt() int64 {
 					for i := range auth {
 						auth[i] = byte(i*7 + 1)
 					}
-					e.spaoCase(spi, alg, ts, auth)
+					e.guard("spao", func() { e.spaoCase(spi, alg, ts, auth) })
 					cnt++
 				}
 			}
@@ -1083,7 +1094,12 @@ func (e *c18env) encL4() int64 {
 						}
 						var d slayers.UDP
 						fb := &c18fb{}
-						if err := d.DecodeFromBytes(append([]byte{}, got...), fb); err != nil {
+						var err error
+						if p := mc.Safely(func() { err = d.DecodeFromBytes(append([]byte{}, got...), fb) }); p != nil {
+							e.bad("dec-panic-on-serialized:UDP", fmt.Sprintf("%x: %v", got, p))
+							continue
+						}
+						if err != nil {
 							e.bad("dec-rejects-serialized:UDP", fmt.Sprintf("%x: %v", got, err))
 							continue
 						}
@@ -1118,7 +1134,12 @@ func (e *c18env) encL4() int64 {
 				continue
 			}
 			var d slayers.SCMP
-			if err := d.DecodeFromBytes(append([]byte{}, got...), &c18fb{}); err != nil {
+			var err error
+			if p := mc.Safely(func() { err = d.DecodeFromBytes(append([]byte{}, got...), &c18fb{}) }); p != nil {
+				e.bad("dec-panic-on-serialized:SCMP", fmt.Sprintf("%x: %v", got, p))
+				continue
+			}
+			if err != nil {
 				e.bad("dec-rejects-serialized:SCMP", err.Error())
 				continue
 			}
@@ -1148,7 +1169,12 @@ func (e *c18env) encL4() int64 {
 			e.bad("l4-enc-layout:"+name, fmt.Sprintf("got %x want %x", got, want))
 			return
 		}
-		if err := back.DecodeFromBytes(append([]byte{}, got...), &c18fb{}); err != nil {
+		var err error
+		if p := mc.Safely(func() { err = back.DecodeFromBytes(append([]byte{}, got...), &c18fb{}) }); p != nil {
+			e.bad("dec-panic-on-serialized:"+name, fmt.Sprintf("%x: %v", got, p))
+			return
+		}
+		if err != nil {
 			e.bad("dec-rejects-serialized:"+name, err.Error())
 			return
 		}
